@@ -13,7 +13,7 @@ use serde::{Deserialize, Serialize};
 use std::collections::BTreeMap;
 use std::time::Instant;
 
-pub const RULE: &str = "cases = one accepted graph + kinematics, 4 x-space points and a history of 1..40 operations on a shared sampler: SampleX(point, return_metadata, print_debug_info, stability None/Some(1e300)), SampleRng(seed, flags), SampleNear(point with one coordinate moved by 1..8 ulps, flags), UseClone, UseSerdeCopy (continue with a JSON round-tripped copy), Rebuild (continue with a sampler built again from the same graph), SampleStrict (stability tolerance 1e-18: the error path), SampleOther (same point, other masses/shifts), Aux (a different sampler sampled in between), Burst(t<=8 threads x m<=6 samples on the shared sampler). model = map (point, stability setting) -> first observed bit pattern of (loop_momenta,u,v,u_trop,v_trop,jacobian | error kind); invariant after every step: every observation equals the model, for all combinations of return_metadata x print_debug_info. generate_sample_from_rng: the rng is cloned, get_dimension() numbers are drawn from the clone, the result must equal the x-space call on those numbers and both rngs must be in the same state afterwards. cross-process: the same graphs/points are sampled in a freshly started process (different hash seeds) and compared bit for bit. non-trivial = history with >= 2 distinct flag settings and a thread burst; distinct = distinct case encodings";
+pub const RULE: &str = "cases = one accepted graph + kinematics, 4 x-space points and a history of 1..40 operations on a shared sampler: SampleX(point, return_metadata, print_debug_info, stability None/Some(1e300)), SampleRng(seed, flags), SampleNear(point with one coordinate moved by 1..8 ulps, flags), UseClone, UseSerdeCopy (continue with a JSON round-tripped copy), Rebuild (continue with a sampler built again from the same graph), SampleStrict (stability tolerance 1e-18: the error path), SampleOther (same point, other masses/shifts), Aux (a different sampler sampled in between), Burst(t<=8 threads x m<=6 samples on the shared sampler), ConstPair (main, auxiliary, main sampler at the point whose coordinates all equal one value: every partial key of the arguments coincides), Threshold (bisection for the smallest accepting stability tolerance t*, then all four flag settings at t* and at the next smaller float must agree with the plain call). model = map (point, stability setting) -> first observed bit pattern of (loop_momenta,u,v,u_trop,v_trop,jacobian | error kind); invariant after every step: every observation equals the model, for all combinations of return_metadata x print_debug_info. generate_sample_from_rng: the rng is cloned, get_dimension() numbers are drawn from the clone, the result must equal the x-space call on those numbers and both rngs must be in the same state afterwards. cross-process: the same graphs/points are sampled in a freshly started process (different hash seeds) and compared bit for bit. non-trivial = history with >= 2 distinct flag settings and a thread burst; distinct = distinct case encodings";
 
 #[derive(Clone, Debug, Serialize, Deserialize)]
 pub enum Op {
@@ -33,6 +33,12 @@ pub enum Op {
     /// a different sampler (massive bubble in the same dimension) sampled in between
     Aux { pt: usize, meta: bool, debug: bool },
     Burst { threads: usize, per: usize, meta: bool, debug: bool },
+    /// the main sampler, then the auxiliary sampler, then the main sampler again, each at the point whose coordinates
+    /// all equal one value (the k-th coordinate of point 0): any hidden state keyed on part of the arguments is shared
+    ConstPair { k: usize, meta: bool, debug: bool },
+    /// find by bisection the smallest stability tolerance t* that accepts the point, then compare all flag settings
+    /// at t* and at the next smaller float
+    Threshold { pt: usize },
 }
 #[derive(Clone, Debug, Serialize, Deserialize)]
 pub struct Case {
@@ -48,7 +54,9 @@ pub fn gen_case(t: &mut Tape, tier: Tier) -> Option<Case> {
     let points: Vec<Vec<f64>> = (0..4).map(|i| if i == 0 { p.x.clone() } else { gen::gen_point(t, &p.g, if i == 3 { &gen::CORNERS } else { &gen::MODERATE }).0 }).collect();
     let n = t.range(1, 40);
     let ops = (0..n)
-        .map(|_| match t.weighted(&[0.34, 0.11, 0.06, 0.05, 0.15, 0.14, 0.06, 0.09]) {
+        .map(|_| match t.weighted(&[0.32, 0.11, 0.06, 0.05, 0.14, 0.13, 0.06, 0.08, 0.03, 0.02]) {
+            8 => Op::ConstPair { k: t.below(3), meta: t.bool(), debug: t.bool() },
+            9 => Op::Threshold { pt: t.below(4) },
             6 => Op::Rebuild,
             7 => match t.below(3) {
                 0 => Op::SampleStrict { pt: t.below(4), meta: t.bool(), debug: t.bool() },
@@ -154,6 +162,7 @@ fn check_d<const D: usize>(c: &Case, ctx: &mut Ctx) -> Result<(), Failure> {
         Err(e) => fail!("aux-build", "auxiliary bubble rejected: {e:?}"),
     };
     let mut var_model: BTreeMap<(u8, usize), Vec<u64>> = BTreeMap::new();
+    let mut const_model: BTreeMap<(bool, usize), Vec<u64>> = BTreeMap::new();
     let orig = match sut::build::<D>(g, p.kin.sig.clone()) {
         Ok(s) => s,
         Err(BuildErr::Rejected(_)) | Err(BuildErr::Panic(_)) => {
@@ -243,6 +252,76 @@ fn check_d<const D: usize>(c: &Case, ctx: &mut Ctx) -> Result<(), Failure> {
                     fail!("history-dependence", "step {step} ({op:?}): the same call (variant {variant}: 0 strict tolerance, 1 other edge data, 2 auxiliary sampler) gave a different result than before; case {c:?}");
                 }
             }
+            Op::ConstPair { k, meta, debug } => {
+                settings_seen.insert((*meta, *debug, false));
+                let v = c.points[0][*k % c.points[0].len()];
+                let xm = vec![v; dim];
+                let xa = vec![v; aux.get_dimension()];
+                let aux_call = |meta: bool, debug: bool| match sut::sample_f64(&aux, &xa, sut::edge_data::<D>(&[true, true], &[1.0, 0.7], &[vec![0.25; D], vec![0.0; D]]), None, debug, meta) {
+                    Ok(o) => o.bits(),
+                    Err(e) => full_bits(&Err(e)),
+                };
+                let seq = [result_bits::<D>(&cur, p, &xm, *meta, *debug, false), aux_call(*meta, *debug), result_bits::<D>(&cur, p, &xm, *meta, *debug, false)];
+                for (i, got) in seq.iter().enumerate() {
+                    if *got == vec![0xE004] {
+                        fail!("sample-panic", "step {step} ({op:?}): sampling panicked; case {c:?}");
+                    }
+                    let e = const_model.entry((i == 1, *k % c.points[0].len())).or_insert_with(|| got.clone());
+                    if e != got {
+                        fail!("history-dependence", "step {step} ({op:?}), call {i} of main/auxiliary/main at the constant point {v:e}: differs from the first observation of the same call; case {c:?}");
+                    }
+                }
+            }
+            Op::Threshold { pt } => {
+                let x = &c.points[*pt];
+                let class = |tol: f64, meta: bool, debug: bool| -> Vec<u64> {
+                    let ed = sut::edge_data::<D>(&g.massive, &p.kin.masses, &p.kin.shifts);
+                    match sut::sample_f64(&cur, x, ed, Some(tol), debug, meta) {
+                        Ok(o) => o.bits(),
+                        Err(e) => full_bits(&Err(e)),
+                    }
+                };
+                let is_ok = |b: &Vec<u64>| b.len() > 1;
+                let hi0 = class(1e300, false, false);
+                if hi0 == vec![0xE004] {
+                    fail!("sample-panic", "step {step}: sampling panicked; case {c:?}");
+                }
+                if !is_ok(&hi0) {
+                    ctx.label("threshold:not-accepted-at-any-tolerance");
+                } else {
+                    // positive floats are ordered like their bit patterns
+                    let (mut lo, mut hi) = (0u64, 1e300f64.to_bits());
+                    if is_ok(&class(0.0, false, false)) {
+                        hi = 0;
+                    } else {
+                        while hi - lo > 1 {
+                            let mid = lo + (hi - lo) / 2;
+                            if is_ok(&class(f64::from_bits(mid), false, false)) {
+                                hi = mid;
+                            } else {
+                                lo = mid;
+                            }
+                        }
+                    }
+                    let tstar = f64::from_bits(hi);
+                    let below = if hi == 0 { -f64::from_bits(1) } else { f64::from_bits(hi - 1) };
+                    for tol in [tstar, below] {
+                        let want = class(tol, false, false);
+                        for meta in [false, true] {
+                            for debug in [false, true] {
+                                let got = class(tol, meta, debug);
+                                if got != want {
+                                    fail!("flag-dependence", "step {step}: point {pt} with matrix_stability_test = Some({tol:e}) (the smallest accepting tolerance is {tstar:e}): return_metadata={meta} print_debug_info={debug} gives {} but the plain call gives {}; case {c:?}", if is_ok(&got) { "Ok" } else { "an error" }, if is_ok(&want) { "Ok" } else { "an error" });
+                                }
+                            }
+                        }
+                    }
+                    if is_ok(&class(below, false, false)) {
+                        fail!("threshold-not-monotone", "step {step}: tolerance {below:e} accepted although {tstar:e} was found to be the smallest accepting one");
+                    }
+                    ctx.label(if hi == 0 { "threshold:exact-zero-error" } else { "threshold:probed" });
+                }
+            }
             Op::Rebuild => {
                 cur = match sut::build::<D>(g, p.kin.sig.clone()) {
                     Ok(s) => s,
@@ -310,6 +389,22 @@ fn check_d<const D: usize>(c: &Case, ctx: &mut Ctx) -> Result<(), Failure> {
             }
         }
     }
+    // constant points once more, each preceded by an unrelated point (evicts anything keyed on the previous call)
+    for ((is_aux, k), want) in &const_model {
+        let _ = result_bits::<D>(&orig, p, &c.points[3], false, false, false);
+        let v = c.points[0][*k];
+        let got = if *is_aux {
+            match sut::sample_f64(&aux, &vec![v; aux.get_dimension()], sut::edge_data::<D>(&[true, true], &[1.0, 0.7], &[vec![0.25; D], vec![0.0; D]]), None, false, false) {
+                Ok(o) => o.bits(),
+                Err(e) => full_bits(&Err(e)),
+            }
+        } else {
+            result_bits::<D>(&orig, p, &vec![v; dim], false, false, false)
+        };
+        if &got != want {
+            fail!("history-dependence", "the {} sampler at the constant point {v:e} gave a different result right after the other sampler had been sampled at the same constant point than after an unrelated call: hidden state keyed on part of the arguments; case {c:?}", if *is_aux { "auxiliary" } else { "main" });
+        }
+    }
     // neighbours once more, on the original sampler, each preceded by an unrelated point
     for (x, want) in near_model.values() {
         let _ = result_bits::<D>(&orig, p, &c.points[3], false, false, false);
@@ -330,7 +425,7 @@ pub fn check(c: &Case, ctx: &mut Ctx) -> Result<(), Failure> {
     if c.points.len() != 4 || c.points.iter().any(|x| x.len() < dim || x.iter().any(|v| !(v.is_finite() && *v >= 0.0 && *v < 1.0))) {
         fail!("bad-case", "needs 4 points in [0,1)^dim");
     }
-    if c.ops.iter().any(|o| matches!(o, Op::SampleNear { pt, ulps, .. } if *pt >= 4 || ulps.abs() > 64) || matches!(o, Op::SampleStrict { pt, .. } | Op::SampleOther { pt, .. } | Op::Aux { pt, .. } if *pt >= 4) || matches!(o, Op::SampleX { pt, .. } if *pt >= 4) || matches!(o, Op::Burst { threads, per, .. } if *threads > 16 || *per > 16)) {
+    if c.ops.iter().any(|o| matches!(o, Op::SampleNear { pt, ulps, .. } if *pt >= 4 || ulps.abs() > 64) || matches!(o, Op::SampleStrict { pt, .. } | Op::SampleOther { pt, .. } | Op::Aux { pt, .. } if *pt >= 4) || matches!(o, Op::SampleX { pt, .. } | Op::Threshold { pt } if *pt >= 4) || matches!(o, Op::Burst { threads, per, .. } if *threads > 16 || *per > 16)) {
         fail!("bad-case", "operation out of range");
     }
     with_d!(c.p.g.d, check_d(c, ctx))
